@@ -182,12 +182,40 @@ def toc_lookup_rules(ctx, rule='R8'):
     toc = m.cls(TOC, 'Toc')
     ae = toc.method('add_element')
     ep = ae.params[1]
-    ws = [norm(s.targets[0]) for s in walk_own(ae.node) if isinstance(s, ast.Assign) and norm(s.value) == ep]
+    gae = cfg_of(ae)
+
+    def through(g_, st_, e_):
+        # the path written with locals (`toc = self.toc; names = toc[group]`) is the path through self.toc
+        n_ = g_.node_of(st_)
+        import copy as _c
+        e2 = _c.deepcopy(e_)
+        for x_ in ast.walk(e2):
+            if hasattr(x_, 'ctx'):
+                x_.ctx = ast.Load()
+        if n_ is None:
+            return norm(e_)
+        fn_params = tuple(a_.arg for a_ in g_.func.args.args) if hasattr(g_, 'func') and hasattr(g_.func, 'args') else ()
+        # a local with several definitions that all denote the same place (`g = self.toc[k]` / `g = self.toc[k] = {}`) is that place
+        for x_ in list(ast.walk(e2)):
+            if isinstance(x_, ast.Name) and x_.id not in fn_params and x_.id != 'self':
+                places = set()
+                for d_ in g_.reaching_defs(n_, x_.id):
+                    if d_.ast is not None and isinstance(d_.ast, ast.Assign) and len(d_.ast.targets) == 2 and any(isinstance(t_, ast.Name) and t_.id == x_.id for t_ in d_.ast.targets):
+                        places.add(norm([t_ for t_ in d_.ast.targets if not (isinstance(t_, ast.Name) and t_.id == x_.id)][0]))
+                    else:
+                        v_ = g_.def_value(d_, x_.id) if d_.ast is not None else None
+                        places.add(norm(v_) if v_ is not None else '?')
+                if len(places) == 1 and '?' not in places and len(g_.reaching_defs(n_, x_.id)) > 1:
+                    x_.id = '(%s)' % places.pop()
+        txt = norm(g_.expand_locals(n_, e2, pure_only=False, keep=fn_params))
+        return txt.replace('(self.toc[', 'self.toc[').replace('])[', '][') if '(self.toc[' in txt else txt
+    ws = [through(gae, s, s.targets[0]) for s in walk_own(ae.node) if isinstance(s, ast.Assign) and norm(s.value) == ep]
     # D.setdefault(k, {})[n] = v  stores under D[k][n] as well
     ws = ['self.toc[%s.group][%s.name]' % (ep, ep) if w.replace(' ', '') in ('self.toc.setdefault(%s.group,{})[%s.name]' % (ep, ep), 'self.toc.setdefault(%s.group,dict())[%s.name]' % (ep, ep)) else w for w in ws]
     ctx.inst(rule, ae, 'store-path', bool(ws) and set(ws) == {'self.toc[%s.group][%s.name]' % (ep, ep)}, 'elements are stored under toc[group][name]; stores %s' % ws)
     ge = toc.method('get_element')
-    rets = [norm(s.value) for s in walk_own(ge.node) if isinstance(s, ast.Return) and s.value is not None and not isinstance(s.value, ast.Constant)]
+    gge = cfg_of(ge)
+    rets = [through(gge, s, s.value) for s in walk_own(ge.node) if isinstance(s, ast.Return) and s.value is not None and not isinstance(s.value, ast.Constant)]
     ctx.inst(rule, ge, 'lookup-path', rets == ['self.toc[%s][%s]' % (ge.params[1], ge.params[2])], 'get_element(group, name) reads toc[group][name]; returns %s' % rets)
     gi = toc.method('get_element_by_id')
     g3 = cfg_of(gi)
@@ -576,7 +604,9 @@ def check(ctx):
     ctx.inst('R6', (LOG, 'LogTocElement'), 'log-type-set', set(ltypes) == set(FW_LOG_TYPES), 'log type codes %s' % sorted(ltypes))
     for getter, col in (('get_cstring_from_id', 0), ('get_unpack_string_from_id', 1), ('get_size_from_id', 2)):
         f = le.method(getter)
-        rets = [norm(s.value) for s in walk_own(f.node) if isinstance(s, ast.Return) and s.value is not None]
+        gf_ = cfg_of(f)
+        rets = [norm(gf_.expand_locals(gf_.node_of(s), s.value, pure_only=False, keep=tuple(f.params))) if gf_.node_of(s) is not None else norm(s.value)
+                for s in walk_own(f.node) if isinstance(s, ast.Return) and s.value is not None]
         ctx.inst('R6', f, 'log-column', rets == ['LogTocElement.types[%s][%d]' % (f.params[0], col)], '%s returns %s, expected column %d' % (getter, rets, col))
     li = le.method('__init__')
     lst = {norm(s.targets[0]): norm(s.value) for s in sorted([x for x in walk_own(li.node) if isinstance(x, ast.Assign)], key=lambda x: x.lineno)}
